@@ -576,7 +576,7 @@ def rw_for_range(fi, args, spec=None):
         lo = src[toks[j + 1].start:toks[dd].start].strip()
         hi = src[toks[dd + 2].start:toks[lp['open']].start].strip()
         n = a
-        edits.append((toks[lp['start']].start, toks[lp['start']].start, f'let mut __i{n} = {lo}; let __e{n} = {hi};\n', 'R-FOR'))
+        edits.append((toks[lp['start']].start, toks[lp['start']].start, f'let mut __i{n} = {lo}; let __e{n} = {hi};\n#[verifier::loop_isolation(false)]\n', 'R-FOR'))
         edits.append((toks[i].start, toks[lp['open']].start, f'while __i{n} < __e{n} ', 'R-FOR'))
         edits.append((toks[lp['open']].end, toks[lp['open']].end, f' let {pat} = __i{n}; __i{n} += 1;', 'R-FOR'))
     return edits
@@ -873,7 +873,60 @@ def rw_rename(fi, args, spec=None):
     return edits
 
 
+def rw_enum(fi, args, spec=None):
+    """R-ENUM K: `for (I, P) in X[A..B].iter().enumerate() {` ->
+    `let mut __jK: usize = 0; let __nK = (B) - (A); while __jK < __nK { let I = __jK; let P = &X[(A) + __jK]; __jK += 1;`
+    (index loop in disguise; the increment comes first so that `continue` keeps its meaning)."""
+    toks = fi.toks
+    src = fi.sf.src
+    edits = []
+    for a in args:
+        lp = fi.loops[int(a)]
+        if lp['kind'] != 'for':
+            raise LostAnchor(f'fn {fi.item.name}: R-ENUM on a non-for loop')
+        i = lp['kw']
+        if not is_p(toks[i + 1], '('):
+            raise LostAnchor(f'fn {fi.item.name}: R-ENUM needs a `(i, pat)` pattern')
+        pk = match_close(toks, i + 1)
+        parts = _split_args(toks, i + 2, pk)
+        ivar = src[toks[parts[0][0]].start:toks[parts[0][1] - 1].end]
+        pat = src[toks[parts[1][0]].start:toks[pk - 1].end]
+        j = pk + 1
+        if not is_id(toks[j], 'in'):
+            raise LostAnchor(f'fn {fi.item.name}: R-ENUM: expected `in`')
+        # X [ A .. B ] . iter ( ) . enumerate ( )
+        k = j + 1
+        while k < lp['open'] and not is_p(toks[k], '['):
+            k += 1
+        if k >= lp['open']:
+            raise LostAnchor(f'fn {fi.item.name}: R-ENUM needs X[A..B].iter().enumerate()')
+        recv = src[toks[j + 1].start:toks[k].start].strip()
+        kc = match_close(toks, k)
+        dd = None
+        q = k + 1
+        while q < kc:
+            if toks[q].kind == 'punct' and toks[q].text in ('(', '['):
+                q = match_close(toks, q)
+            elif is_p(toks[q], '.') and is_p(toks[q + 1], '.') and toks[q + 1].start == toks[q].end:
+                dd = q
+                break
+            q += 1
+        if dd is None:
+            raise LostAnchor(f'fn {fi.item.name}: R-ENUM needs a range index')
+        lo = src[toks[k + 1].start:toks[dd].start].strip() or '0'
+        hi = src[toks[dd + 2].start:toks[kc].start].strip()
+        tail = norm(toks, kc + 1, lp['open'])
+        if tail.replace(' ', '') != '.iter().enumerate()':
+            raise LostAnchor(f'fn {fi.item.name}: R-ENUM: unexpected iterator chain `{tail}`')
+        n = a
+        edits.append((toks[lp['start']].start, toks[lp['start']].start, f'let mut __j{n}: usize = 0; let __n{n}: usize = ({hi}) - ({lo});\n#[verifier::loop_isolation(false)]\n', 'R-ENUM'))
+        edits.append((toks[i].start, toks[lp['open']].start, f'while __j{n} < __n{n} ', 'R-ENUM'))
+        edits.append((toks[lp['open']].end, toks[lp['open']].end, f' let {ivar} = __j{n}; let {pat} = &{recv}[({lo}) + __j{n}]; __j{n} += 1;', 'R-ENUM'))
+    return edits
+
+
 REWRITES = {
+    'R-ENUM': rw_enum,
     'R-RENAME': rw_rename,
     'R-ASSERT': rw_assert,
     'R-THEN': rw_then,
